@@ -14,7 +14,7 @@ RULE = ("A: TLC grid - for each of the 7 directives: 2 parameter sets x all 128 
 def events(ctx):
     rng = ctx.rng
     for k in DIRECTIVES:
-        for _ in range(ctx.q(1500, 100000)):
+        for _ in range(ctx.q(5000, 300000)):
             cfg = rnd_cfg(rng)
             over = rng.random() < 0.06
             yield record("pdu.rt", {"kind": k, "cfg": cfg, "p": rnd_params(rng, k, cfg["large"], over),
